@@ -10,7 +10,6 @@ use crate::model::Model;
 use crate::observe::{self, bump, guard, Diff, Obs};
 use crate::rng::{hash_u64s, Rng};
 use crate::runner::{CaseOut, Monitor, Tier};
-use hpo::annotations::{AnnotationId, Disease};
 use hpo::Ontology;
 
 pub struct MetaMonitor {
@@ -490,7 +489,7 @@ impl Monitor for MetaMonitor {
                     v.push(format!("long:{i}"));
                 }
                 v.extend(catalogue_labels());
-                for i in 0..tier.pick(1500, 80_000) {
+                for i in 0..tier.pick(3000, 80_000) {
                     v.push(format!("rnd:{i}"));
                 }
             }
@@ -498,7 +497,7 @@ impl Monitor for MetaMonitor {
                 for i in 0..30 {
                     v.push(format!("cat:{i}"));
                 }
-                for i in 0..tier.pick(500, 30_000) {
+                for i in 0..tier.pick(1500, 30_000) {
                     v.push(format!("rnd:{}", i + 30));
                 }
             }
@@ -506,7 +505,7 @@ impl Monitor for MetaMonitor {
                 for i in 0..24 {
                     v.push(format!("cat:{i}"));
                 }
-                for i in 0..tier.pick(300, 15_000) {
+                for i in 0..tier.pick(600, 15_000) {
                     v.push(format!("rnd:{}", i + 24));
                 }
             }
